@@ -426,7 +426,8 @@ theorem recompute_fold_inv (l : List Svc) (c0 c : Ctl) (P Q : Slice → Prop)
 /-- the condition under which a label edit is repaired: the pod is ready and cached under its IP
     (so `addPod` takes the label-update branch), nothing waits in `needResync` under that IP, service
     account and node are unchanged, and every slice that refers to the pod has a port and belongs to
-    a Service of the store whose selector matches the NEW labels (`getPodServices`). -/
+    a Service of the store whose selector matches the NEW labels (`getPodServices`); the pod had its IP
+    before (implied by being cached, `PodCacheOK`). -/
 def PodLabelGood (c : Ctl) (v : Pod) : Prop :=
   match findPod c.pods v.ns v.name with
   | none => False
@@ -434,7 +435,8 @@ def PodLabelGood (c : Ctl) (v : Pod) : Prop :=
     labelsChanged (some o) v = true ∧ o.sa = v.sa ∧ o.node = v.node ∧ v.ip ≠ "" ∧
     (podShouldBeIn v && v.ready) = true ∧ setContains c.byIP v.ip v.key = true ∧ alookup v.ip c.resync = none ∧
     (∀ sl ∈ c.slices, (∃ ea ∈ sl.addrPairs, ea.1.target = some (v.ns, v.name)) →
-      sl.ports ≠ [] ∧ ∃ sv ∈ c.svcs, sv.ns = v.ns ∧ selMatch sv.sel v.labels = true ∧ sl.ns = sv.ns ∧ sl.svc = sv.name)
+      sl.ports ≠ [] ∧ ∃ sv ∈ c.svcs, sv.ns = v.ns ∧ selMatch sv.sel v.labels = true ∧ sl.ns = sv.ns ∧ sl.svc = sv.name) ∧
+    o.ip ≠ ""
 
 theorem buildSlice_nonempty (pods : List Pod) (nodes : List Node) (byIP : List (String × List String))
     (svc : Option Svc) (x : Slice) (ea : Ep × String) (tns tn : String) (p : Pod)
@@ -494,7 +496,7 @@ theorem pod_label_edit_inv (c : Ctl) (v : Pod) (c' : Ctl) (hph : v.phase ≠ "F"
   | none => rw [hfo] at hgood; exact absurd hgood (fun h => h)
   | some o =>
     rw [hfo] at hgood
-    obtain ⟨hch, hsa, hnode, hip, hok, hcached, hnowait, hsl⟩ := hgood
+    obtain ⟨hch, hsa, hnode, hip, hok, hcached, hnowait, hsl, _⟩ := hgood
     -- the event is the label-update branch of addPod: recompute, no replay
     have hrun : runAll c1 [podEvOf c v] = recompute c1 v := by
       have hev : podEvOf c v = Ev.podUpd o v := by unfold podEvOf; rw [hfo]
